@@ -150,7 +150,7 @@ def lib_conformance(res, rd, src, modes, tier, asan):
             jobs.append(("%s seek %s" % (exe, d), "library: seek"))
         elif m == "ctl":
             d = os.path.join(rd, "libctl"); os.makedirs(d, exist_ok=True)
-            jobs.append(("%s ctl %s %d" % (exe, d, 4 if tier == "quick" else 5), "library: control files"))
+            jobs.append(("%s ctl %s %d" % (exe, d, 5 if tier == "quick" else 6), "library: control files"))
         else:
             jobs.append(("%s %s" % (exe, m), "library: " + m))
     res.run_parallel(jobs, timeout=1800)
